@@ -1994,6 +1994,7 @@ var getValueExceptions = map[string]string{
 	"core.(*JApiCore).checkUserType | recv.userTypes.GetValue(param#0) [parameter]":                                                       "called for the keys of userTypes.Each, or for the type that Check() of such a type names as incorrect, which the dependency found in the set of added types = userTypes",
 	"core.(*JApiCore).checkUserType | recv.rawUserTypes.GetValue(param#0) [parameter]":                                                    "userTypes is a subset of rawUserTypes: userTypes.Set is only called with a key of rawUserTypes.Each, or re-sets an existing key",
 	"core.(*JApiCore).compileUserTypeWithAllDependencies | recv.rawUserTypes.GetValue(param#0) [parameter]":                               "name is a key of userTypes (checked non-nil a few lines above) or the name of the existing user type whose UsedUserTypes() failed; userTypes is a subset of rawUserTypes",
+	"core.(*JApiCore).userTypeSchemaError | recv.rawUserTypes.GetValue(param#1) [parameter]":                                              "both call sites (compileUserTypeWithAllDependencies) hand over the name of a type whose userTypes.GetValue was found non-nil before (currUT, or the loop's ut); userTypes is a subset of rawUserTypes",
 	"core.(*JApiCore).compileUserTypeWithAllDependencies | recv.rawUserTypes.GetValue(elem) [ranges over result#0 of fetchUsedUserTypes]": "the loop skips every n whose userTypes.GetValue(n) is nil, and userTypes is a subset of rawUserTypes",
 }
 
